@@ -111,15 +111,19 @@ inductive Op | get | uninstall | install | verify | list
   deriving DecidableEq, Repr, FromJson, ToJson
 
 /-- `exec`: a plugin script with mode 0755 (records its own path when it runs);
-`file`: a data file, mode 0644; `symdir` / `symfile`: symbolic link to a directory / data
-file that lives elsewhere -/
-inductive Kind | dir | exec | file | symdir | symfile
+`file`: a data file, mode 0644; `symdir` / `symfile` / `symexec`: symbolic link to an existing
+directory / data file / plugin script somewhere else in the world (`Node.target`);
+`symnone`: a dangling symbolic link (its target does not exist) -/
+inductive Kind | dir | exec | file | symdir | symfile | symexec | symnone
   deriving DecidableEq, Repr, FromJson, ToJson
 
 structure Node where
   path : Text          -- absolute, clean; "/" stands for the case directory of the harness
   kind : Kind
   ver : Nat            -- scripts: the version they report is <ver>.0.0; files: content tag; 0 for directories
+  target : Text        -- symbolic links: where they point (absolute, in the same world); "" otherwise.
+                       -- The code under test never writes through a link, so the model does not use it;
+                       -- the harness needs it to build the world and to see writes through links.
   deriving DecidableEq, Repr, FromJson, ToJson
 
 structure Input where
@@ -142,7 +146,9 @@ structure Obs where
 /-- `os.Stat` succeeds with a directory -/
 def Kind.statDir : Kind → Bool | .dir | .symdir => true | _ => false
 /-- `os.Stat` succeeds with a regular file -/
-def Kind.statRegular : Kind → Bool | .exec | .file | .symfile => true | _ => false
+def Kind.statRegular : Kind → Bool | .exec | .file | .symfile | .symexec => true | _ => false
+/-- the file can be executed (`GetMetadata` succeeds) -/
+def Kind.runnable : Kind → Bool | .exec | .symexec => true | _ => false
 /-- `DirEntry.Info()` (lstat) says regular file -/
 def Kind.lstatRegular : Kind → Bool | .exec | .file => true | _ => false
 
@@ -182,10 +188,12 @@ def mgrGet (fs : List Node) (root name : Text) : Except GetErr Node :=
   if Facts.c16GetValidatesFirst && !validName name then .error .invalid
   else match lookup fs (exePath root name) with
     | none => .error .notExist
-    | some n => if n.kind.statRegular then .ok n else .error .notRegular
+    | some n =>
+      if n.kind = .symnone then .error .notExist          -- os.Stat follows the dangling link
+      else if n.kind.statRegular then .ok n else .error .notRegular
 
-/-- scripts run by `GetMetadata` on a plugin object -/
-def ranBy (n : Node) : List Text := if n.kind = .exec then [n.path] else []
+/-- scripts run by `GetMetadata` on a plugin object (a link runs under its own path) -/
+def ranBy (n : Node) : List Text := if n.kind.runnable then [n.path] else []
 
 /-- the harness' `get`: `Get`, and `GetMetadata` on the plugin it returned -/
 def runGet (i : Input) : Obs :=
@@ -198,7 +206,9 @@ def runUninstall (i : Input) : Obs :=
   if Facts.c16UninstallValidatesFirst && !validName i.name then errObs
   else match lookup i.fs (dirPath i.root i.name) with
     | none => errObs                                   -- os.Stat fails
-    | some _ =>
+    | some n =>
+      if n.kind = .symnone then errObs                 -- os.Stat follows the dangling link: ErrNotExist
+      else
       { err := false, executed := [], listed := [],
         changed := sortTexts ((i.fs.filter (fun n => under (dirPath i.root i.name) n.path)).map (·.path)) }
 
@@ -214,7 +224,7 @@ def runVerify (i : Input) : Obs :=
   if i.name.all isSpace then errObs
   else match mgrGet i.fs i.root i.name with
     | .error _ => errObs
-    | .ok n => { err := n.kind != .exec || !i.trusted, executed := ranBy n, changed := [], listed := [] }
+    | .ok n => { err := !n.kind.runnable || !i.trusted, executed := ranBy n, changed := [], listed := [] }
 
 /-- `CLIManager.List` over `os.DirFS(root)`: real sub-directories of the root -/
 def runList (i : Input) : Obs :=
@@ -240,7 +250,8 @@ def installSource (fs : List Node) (src : Text) : Option (Node × Node × Text) 
   else match lookup fs src with
     | none => none
     | some s =>
-      if s.kind.statDir then (fromDir fs s.path).map (fun (e, nm) => (s, e, nm))
+      if s.kind = .symnone then none
+      else if s.kind.statDir then (fromDir fs s.path).map (fun (e, nm) => (s, e, nm))
       else match parsePluginName (baseName src) with
         | none => none
         | some nm => if s.kind = .exec then some (s, s, nm) else none   -- not (a) regular / not executable
@@ -248,7 +259,7 @@ def installSource (fs : List Node) (src : Text) : Option (Node × Node × Text) 
 /-- files copied by `file.CopyToDir` / `file.CopyDirToDir` into directory `d` -/
 def copied (fs : List Node) (src : Node) (exe : Node) (d : Text) : List Node :=
   let files := if src.kind.statDir then fs.filter (fun n => childOf (comps src.path) n.path && n.kind.lstatRegular) else [exe]
-  files.map (fun f => { path := d ++ '/' :: baseName f.path, kind := f.kind, ver := f.ver })
+  files.map (fun f => { path := d ++ '/' :: baseName f.path, kind := f.kind, ver := f.ver, target := [] })
 
 def sameContent (a b : Node) : Bool :=
   samePath a.path b.path && a.kind == b.kind && (a.kind == .dir || a.ver == b.ver)
@@ -262,13 +273,17 @@ def diffPaths (old new : List Node) : List Text :=
 def installFail (ran : List Text) : Obs :=
   { err := true, executed := sortTexts ran, changed := [], listed := [] }
 
-/-- the tail of `Install`: `Uninstall(name)` (a missing directory is fine), then the copy -/
+/-- the tail of `Install`: `Uninstall(name)` (a missing directory is fine), then the copy into a
+directory that is always created afresh - whatever was left in `<root>/<name>`, links included,
+is gone before the first file is written -/
 def installFinish (i : Input) (src exe : Node) (name : Text) (ran : List Text) : Obs :=
   if Facts.c16UninstallValidatesFirst && !validName name then installFail ran
+  else if ((lookup i.fs (dirPath i.root name)).map (·.kind)) = some .symnone then
+    installFail ran      -- Uninstall: ErrNotExist (tolerated); MkdirAll on the dangling link fails
   else
     let d := dirPath i.root name
     let old := i.fs.filter (fun n => under d n.path)
-    let new := { path := d, kind := .dir, ver := 0 } :: copied i.fs src exe d
+    let new := { path := d, kind := .dir, ver := 0, target := [] } :: copied i.fs src exe d
     { err := false, executed := sortTexts ran, changed := sortTexts (diffPaths old new), listed := [] }
 
 /-- `CLIManager.Install` -/
@@ -283,7 +298,7 @@ def runInstall (i : Input) : Obs :=
       | .error e =>
         if e != .notExist && !i.overwrite then installFail [exe.path] else installFinish i src exe name [exe.path]
       | .ok ex =>
-        if ex.kind = .exec then
+        if ex.kind.runnable then
           if !i.overwrite && exe.ver ≤ ex.ver then installFail [exe.path, ex.path]   -- equal version / downgrade
           else installFinish i src exe name [exe.path, ex.path]
         else if !i.overwrite then installFail [exe.path]      -- the existing plugin cannot be run
@@ -332,6 +347,10 @@ def clauses (i : Input) (o : Obs) : Clauses :=
       match nm with
       | some n => o.changed.all (inPluginDir i.root n)
       | none => o.changed.isEmpty),
+    -- in particular nothing outside the plugin root is created, removed or modified (the observation
+    -- covers the whole world: victim areas and the targets of every symbolic link included)
+    ("nothing_outside_plugin_root_changes",
+      o.changed.all (fun p => (rootComps i.root).isPrefixOf (comps p))),
     -- whatever runs is <root>/<name>/notation-<name> (or, for install, the install source itself)
     ("executes_only_root_name_executable",
       match nm with
@@ -350,7 +369,7 @@ def clauses (i : Input) (o : Obs) : Clauses :=
              | some n => !(n.kind == .exec) || (!o.err && o.executed == [n.path])
              | none => o.err)
          | _ => (match lookup i.fs (dirPath i.root i.name) with
-             | some n => !o.err && o.changed.contains n.path
+             | some n => n.kind == .symnone || (!o.err && o.changed.contains n.path)
              | none => o.err))),
     -- listing: exactly the real sub-directories of the root
     ("list_reports_exactly_real_subdirectories",
